@@ -682,6 +682,8 @@ class Engine:
         return SymList(j, count, elem, side)
 
     def concrete_iter(self, it):
+        if isinstance(it, tuple) and len(it) == 2 and isinstance(it[0], str) and it[0] == "enumerate":
+            return None       # enumerate over a symbolic range / sequence: needs a loop contract
         if isinstance(it, (list, tuple)):
             return list(it)
         if isinstance(it, dict):
@@ -1255,7 +1257,7 @@ class Engine:
             if not any(is_sym(x) for x in (a_, b_, c_)):
                 return range(a_, b_, c_)
             return SymRange(a_, b_, c_)
-        if n == "enumerate" and len(args) == 1 and isinstance(args[0], SymRange):
+        if n == "enumerate" and len(args) == 1 and (isinstance(args[0], SymRange) or type(args[0]).__name__ == "SymSeq"):
             return ("enumerate", args[0])
         if n == "enumerate" and len(args) == 1 and isinstance(args[0], (list, tuple)):
             return list(enumerate(args[0]))
